@@ -38,7 +38,10 @@ package context
 //@   ensures result == p
 //@   ensures [C20.add.ignored] at(L, chdone[p.closed]) ==> at(U, p.pool) == at(L, p.pool)
 //@   ensures [C20.add.grow] len(at(U, p.pool)) == len(at(L, p.pool)) || len(at(U, p.pool)) == len(at(L, p.pool)) + 1
-//@   at select#0 assume chdone[p.closed] ==> res0 != -1
+//@   ensures [C20.add.tracked] (!chdone[p.closed] && !chdone[call_Done_0_result]) ==>
+//@        (len(at(U, p.pool)) == len(at(L, p.pool)) + 1 && at(U, p.pool[len(p.pool) - 1]) == call_Done_1_result
+//@         && (forall j :: 0 <= j && j < len(at(L, p.pool)) ==> at(U, p.pool[j]) == at(L, p.pool[j])))
+//@   at select#0 assume res0 == -1 <==> (!chdone[p.closed] && !chdone[call_Done_0_result])
 //@   at call Lock#0 label L
 //@   at before call Unlock#0 label U
 
